@@ -193,6 +193,9 @@ def run(chk):
                 run_on_variants(chk, p2, s2, bm2, "V:borrow_mut@" + cfg, mk_borrow_table(BORROW_MUT_TABLE))
             finally:
                 M.LOCAL_MODELS_ENABLED = True
+    import witness
+    if True:
+        witness.check(chk, "typelevel", "C17", "C17.send")
     chk.assume("std Mutex/RwLock/RefCell provide mutual exclusion (no lost update is delegated to them; the tables show the right lock is taken and held)",
                "lock poisoning is not modelled")
     chk.extra["std_models"] = sorted(sim.stats["models_used"])
